@@ -25,6 +25,7 @@ type Script struct {
 	items     []scriptItem      // declarations / definitions / assumptions in emission order
 	declared  map[string]string // symbol -> sort (for declare-const / define-fun symbols)
 	nextID    int
+	defs      map[string]string
 }
 
 type scriptItem struct {
@@ -81,7 +82,64 @@ func (s *Script) define(prefix, sort, body string) string {
 	name := s.fresh(prefix)
 	s.declared[name] = sort
 	s.items = append(s.items, scriptItem{kind: "def", name: name, sort: sort, body: body})
+	if s.defs == nil {
+		s.defs = map[string]string{}
+	}
+	s.defs[name] = body
 	return name
+}
+
+// sliceParts looks through definitions for a literal (mk_slice base off len cap).
+func (s *Script) sliceParts(t string) (base, off, ln, cp string, ok bool) {
+	for i := 0; i < 4; i++ {
+		if b, isDef := s.defs[t]; isDef {
+			t = b
+		} else {
+			break
+		}
+	}
+	if !strings.HasPrefix(t, "(mk_slice ") {
+		return "", "", "", "", false
+	}
+	parts := sexprSplit(t[len("(mk_slice ") : len(t)-1])
+	if len(parts) != 4 {
+		return "", "", "", "", false
+	}
+	return parts[0], parts[1], parts[2], parts[3], true
+}
+
+func slOff(s *Script, t string) string {
+	if _, off, _, _, ok := s.sliceParts(t); ok {
+		return off
+	}
+	return app("sl_off", t)
+}
+
+func slBase(s *Script, t string) string {
+	if b, _, _, _, ok := s.sliceParts(t); ok {
+		return b
+	}
+	return app("sl_base", t)
+}
+
+// add folds additions with the literal 0.
+func add(a, b string) string {
+	if a == "0" {
+		return b
+	}
+	if b == "0" {
+		return a
+	}
+	return app("+", a, b)
+}
+
+// elemIdx: absolute position of element i of a slice with offset off. The uninterpreted idx
+// (axiom idx(o,i) = o+i) keeps arithmetic out of quantifier patterns.
+func elemIdx(off, i string) string {
+	if off == "0" {
+		return i
+	}
+	return app("idx", off, i)
 }
 
 func (s *Script) assume(fact, note string) {
@@ -120,6 +178,7 @@ const preludeRelaxed = `(set-option :produce-models true)
 (define-fun trem ((a Int) (b Int)) Int (- a (* b (tdiv a b))))
 (define-fun imin ((a Int) (b Int)) Int (ite (<= a b) a b))
 (define-fun imax ((a Int) (b Int)) Int (ite (>= a b) a b))
+(define-fun idx ((o Int) (i Int)) Int (+ o i))
 `
 
 const prelude = `(set-option :produce-models true)
@@ -137,6 +196,8 @@ const prelude = `(set-option :produce-models true)
 (define-fun trem ((a Int) (b Int)) Int (- a (* b (tdiv a b))))
 (define-fun imin ((a Int) (b Int)) Int (ite (<= a b) a b))
 (define-fun imax ((a Int) (b Int)) Int (ite (>= a b) a b))
+(declare-fun idx (Int Int) Int)
+(assert (forall ((o Int) (i Int)) (! (= (idx o i) (+ o i)) :pattern ((idx o i)))))
 `
 
 // render produces the full text of a query. goalNeg is the negated goal (or "" for a
